@@ -61,10 +61,50 @@ def model_specs(tier="quick", families=("hem", "merton", "vg", "cgmy"), exp=(Fal
     return out
 
 
+# donor parameter sets of the construction route "reinit": different from every parameter set of the alphabets in EVERY entry
+DONOR_PARAMS = {
+    "hem": {"sigma": 0.11, "p": 0.45, "eta1": 13.0, "eta2": 31.0, "intensity": 2.0},
+    "merton": {"sigma": 0.11, "sigma_j": 0.07, "mu_j": 0.02, "intensity": 2.0},
+    "vg": {"sigma": 0.15, "nu": 0.11, "theta": -0.05},
+    "cgmy": {"c": 0.7, "g": 9.0, "m": 11.0, "y": 0.8},
+    "bs": {"sigma": 0.23},
+}
+
+
+def with_reinit(specs, families=("hem", "merton", "vg", "cgmy")):
+    """The same model specs, each followed by its "reinit" twin: the model with the SAME parameter values, reached the way the
+    library's calibration helpers (model/utils.py) reach a model - a parameter object built with other values, re-assigned
+    attribute by attribute, `initialisation()` called, then handed to the model constructor. Every public quantity of the twin
+    must equal that of the directly constructed model (the properties quantify over models, not over how they were built)."""
+    out = []
+    for sp in specs:
+        out.append(sp)
+        if families is None or sp["family"] in families:
+            out.append(dict(sp, via="reinit"))
+    return out
+
+
 def make_model(spec):
+    import copy
+    import inspect
+
     from rpylib.model.levymodel.levymodel import ModelType
     from rpylib.model.utils import create_exponential_of_levy_model, create_levy_model
 
+    if spec.get("via") == "reinit":
+        direct = {k: v for k, v in spec.items() if k != "via"}
+        target = make_model(direct)
+        donor = make_model(dict(direct, params=DONOR_PARAMS[spec["family"]]))
+        holder_t = target.levy_model if spec.get("exp") else target
+        holder_d = donor.levy_model if spec.get("exp") else donor
+        params = copy.deepcopy(holder_d.parameters)
+        names = [n for n in inspect.signature(type(params).__init__).parameters if n != "self"]
+        for n in names:
+            setattr(params, n, getattr(holder_t.parameters, n))
+        params.initialisation()
+        if spec.get("exp"):
+            return type(target)(spot=spec.get("spot", 100.0), r=spec["r"], d=spec["d"], parameters=params)
+        return type(target)(parameters=params)
     mt = {"hem": ModelType.HEM, "merton": ModelType.MERTON, "vg": ModelType.VG, "cgmy": ModelType.CGMY,
           "bs": ModelType.BLACKSCHOLES}[spec["family"]]
     if spec.get("exp"):
@@ -74,7 +114,7 @@ def make_model(spec):
 
 def model_label(spec):
     p = ",".join(f"{k}={v}" for k, v in sorted(spec["params"].items())) or "default"
-    return f"{'exp-' if spec.get('exp') else ''}{spec['family']}({p})"
+    return f"{'exp-' if spec.get('exp') else ''}{spec['family']}({p}){'[reinit]' if spec.get('via') == 'reinit' else ''}"
 
 
 # ----------------------------------------------------------------------------------------------------------------------
